@@ -28,6 +28,8 @@ Inductive op :=
 | Send | SetPools (ps : list (Z * pstate)) | Tick (d : Z) | Resp (a : nat) (k : rkind) | Fire (k : nat) | Run (k : nat)
 | NextPage (pl : list Z) | AddCb | Result
 | KsReport (c : nat) (h : Z) (err : bool)
+| PResp (a : nat) (pk : pkind)   (* the PREPARE sent as attempt a is answered: _submit(_execute_after_prepare, ...) *)
+| Foreign (h : Z)           (* environment: another statement uses the connection of host h (no call into this future) *)
 | Shutdown                  (* Session.shutdown() has set is_shutdown *)
 | RunRefresh (k : nat).     (* the executor runs a queued refresh_schema_and_set_result *)   (* pool h reports the outcome of its internal USE to propagation c *)
 
@@ -59,8 +61,8 @@ Fixpoint remove_nth {A} (k : nat) (l : list A) : list A :=
 Definition live (t : timer) : bool := negb (cancelled t) && negb (fired t).
 Definition cancel (t : timer) : timer := mkTimer (tk t) (due t) true (fired t).
 Definition mark_fired (t : timer) : timer := mkTimer (tk t) (due t) (cancelled t) true.
-Definition close (a : attempt) : attempt := mkAtt (ahost a) false (astale a).
-Definition make_stale (a : attempt) : attempt := mkAtt (ahost a) (aopen a) true.
+Definition close (a : attempt) : attempt := mkAtt (ahost a) false (astale a) (aprep a).
+Definition make_stale (a : attempt) : attempt := mkAtt (ahost a) (aopen a) true (aprep a).
 
 Definition final_set (s : state) : bool := is_some (fres s) || is_some (fexc s).
 
@@ -124,15 +126,16 @@ Definition set_final_exception (e : Z) (s : state) : state :=
 (* ---------------------------------------------------------------- sending *)
 (* _query(host): (state, request id or None).  self._req_id is set right after borrow_connection, before send_msg, for every
    caller (send_request, same-host retry); it is cleared again when send_msg raised (nothing is outstanding on that stream) *)
-Definition query (h : Z) (s : state) : state * option nat :=
+Definition query_gen (prep : bool) (h : Z) (s : state) : state * option nat :=
   match pool_of (pools s) h with
   | PMissing | PShutdown => (s, None)
   | PNoConn => (set_cur_host (Some h) s, None)
   | PSendFail => (set_cur_req None (set_cur_conn (Some h) (set_cur_host (Some h) s)), None)
   | POk => (set_cur_req (Some (length (attempts s)))
-              (set_attempts (attempts s ++ [mkAtt h true false]) (set_cur_conn (Some h) (set_cur_host (Some h) s))),
+              (set_attempts (attempts s ++ [mkAtt h true false prep]) (set_cur_conn (Some h) (set_cur_host (Some h) s))),
             Some (length (attempts s)))
   end.
+Definition query := query_gen false.               (* _query(host): the statement itself *)
 
 (* is request r still registered on connection c? (self._connection._requests.pop(self._req_id) succeeds) *)
 Definition req_open_on (r : nat) (c : Z) (s : state) : bool :=
@@ -188,11 +191,11 @@ Definition on_spec (s : state) : state :=
 (* ---------------------------------------------------------------- responses *)
 (* _retry(reuse, cl, host): if self._final_exception: return; self._submit(self._retry_task, reuse, host)
    _submit: a shut-down session refuses the task (Session.submit returns None): _set_final_exception(ConnectionShutdown) *)
+Definition submit_task (t : task) (s : state) : state :=
+  if shut s then set_final_exception 5 s else set_queue (queue s ++ [t]) s.
 Definition retry (reuse : bool) (h : Z) (s : state) : state :=
   let s := set_retries (retries s + 1) s in
-  if is_some (fexc s) then s
-  else if shut s then set_final_exception 5 s
-  else set_queue (queue s ++ [(reuse, h)]) s.
+  if is_some (fexc s) then s else submit_task (TRetry reuse h) s.
 
 (* SCHEMA_CHANGE answer: session.submit(refresh_schema_and_set_result, ...); refused by a shut-down session: _set_final_result(None) *)
 Definition start_refresh (s : state) : state :=
@@ -242,6 +245,7 @@ Definition set_result (a : nat) (h : Z) (k : rkind) (s : state) : state :=
   | RRetry DRethrow => set_final_exception (10 + Z.of_nat a) s
   | RRetry DIgnore => set_final_result 1 s
   | ROther => set_final_exception (10 + Z.of_nat a) s
+  | RUnprepared => submit_task (TReprepare h) s      (* self._submit(self._reprepare, prepare_message, host, ...) *)
   | RSchema => start_refresh s
   | RSetKs => start_chain s
   | RJunk => set_final_exception (10 + Z.of_nat a) (cancel_timer s)
@@ -254,6 +258,30 @@ Definition retry_task (reuse : bool) (h : Z) (s : state) : state :=
          let '(s1, r) := query h s in
          match r with Some _ => s1 | None => send_request true s1 end
        else send_request true s.
+
+(* _reprepare: _query(host, prepare_message, cb = _submit(_execute_after_prepare, host, ...)); nothing sent: send_request() *)
+Definition reprepare (h : Z) (s : state) : state :=
+  let '(s1, r) := query_gen true h s in
+  match r with Some _ => s1 | None => send_request true s1 end.
+
+(* _execute_after_prepare(host, connection, pool, response) *)
+Definition after_prepare (h : Z) (a : nat) (pk : pkind) (s : state) : state :=
+  if is_some (fexc s) then s
+  else match pk with
+       | PPrepared => let '(s1, r) := query h s in
+                      match r with Some _ => s1 | None => send_request true s1 end
+       | PMismatch => set_final_exception 6 s
+       | PError => set_final_exception (10 + Z.of_nat a) s
+       | PConnErr => send_request true s
+       | PJunk => set_final_exception (10 + Z.of_nat a) s
+       end.
+
+Definition run_task (t : task) (s : state) : state :=
+  match t with
+  | TRetry reuse h => retry_task reuse h s
+  | TReprepare h => reprepare h s
+  | TAfterPrepare h a pk => after_prepare h a pk s
+  end.
 
 (* start_fetching_next_page (after the QueryExhausted test) *)
 (* _make_query_plan(); _page_no += 1 (every request sent so far becomes stale); _event.clear(); _final_result = _NOT_SET;
@@ -276,6 +304,10 @@ Definition result_call (s : state) : option (Z * Z) :=
   if event s then Some (match fres s with Some v => (0, v) | None => (1, match fexc s with Some e => e | None => 0 end) end)
   else None.
 
+(* _answered: the callback handed to send_msg first forgets the stream id if self._req_id still names this very request *)
+Definition clear_req (a : nat) (s : state) : state :=
+  set_cur_req (match cur_req s with Some r => if (r =? a)%nat then None else Some r | None => None end) s.
+
 (* ---------------------------------------------------------------- the machine *)
 Definition step (s : state) (o : op) : state :=
   match o with
@@ -285,8 +317,8 @@ Definition step (s : state) (o : op) : state :=
   | Resp a k =>
     match nth_error (attempts s) a with
     | Some at_ =>
-      if aopen at_ then
-        let s1 := set_attempts (upd_nth a close (attempts s)) s in
+      if aopen at_ && negb (aprep at_) then
+        let s1 := clear_req a (set_attempts (upd_nth a close (attempts s)) s) in
         if astale at_ then s1      (* _set_result_of_page: answer of an execution of an earlier page fetch, dropped *)
         else set_result a (ahost at_) k s1
       else s
@@ -303,13 +335,21 @@ Definition step (s : state) (o : op) : state :=
     end
   | Run k =>
     match nth_error (queue s) k with
-    | Some (reuse, h) => retry_task reuse h (set_queue (remove_nth k (queue s)) s)
+    | Some t => run_task t (set_queue (remove_nth k (queue s)) s)
     | None => s
     end
   | NextPage pl => if paging s then next_page pl s else s
   | AddCb => add_cb s
   | Result => match result_call s with Some r => set_results (results s ++ [r]) s | None => s end
   | KsReport c h err => ks_report c h err s
+  | PResp a pk =>
+    match nth_error (attempts s) a with
+    | Some at_ => if aopen at_ && aprep at_
+                  then submit_task (TAfterPrepare (ahost at_) a pk) (clear_req a (set_attempts (upd_nth a close (attempts s)) s))
+                  else s
+    | None => s
+    end
+  | Foreign _ => s
   | Shutdown => set_shut true s
   | RunRefresh k =>      (* refresh_schema_and_set_result: ... finally: response_future._set_final_result(None) *)
     match refreshes s with
@@ -340,7 +380,7 @@ Definition lastz (l : list Z) : Z := last l 0.
 
 Definition obs_timer (t : timer) : list Z :=
   [match tk t with TSpec => 0 | TTimeout n => 1 + Z.of_nat n end; due t; bz (cancelled t); bz (fired t)].
-Definition obs_att (a : attempt) : list Z := [ahost a; bz (aopen a); bz (astale a)].
+Definition obs_att (a : attempt) : list Z := [ahost a; bz (aopen a); bz (astale a); bz (aprep a)].
 Definition obs_pair (p : pair) : list Z :=
   [Z.of_nat (length (cbs p)); Z.of_nat (length (ebs p)); lastz (cbs p); lastz (ebs p)].
 
